@@ -154,9 +154,9 @@ def _one_impl(sc, alg, kind, payload: bytes, with_ref: bool):
         if ser == "compact":
             detached = raw and tok_v.split(".")[1] == "" and payload != b""
             if mod is rfc7797:
-                o = mod.deserialize_compact(tok_v, vkey, payload if detached else None, algorithms=[alg])
+                o = mod.deserialize_compact(J.F(tok_v), vkey, payload if detached else None, algorithms=[alg])
             else:
-                o = mod.deserialize_compact(tok_v, vkey, algorithms=[alg])
+                o = mod.deserialize_compact(J.F(tok_v), vkey, algorithms=[alg])
             got_payload, got_prot, got_unprot = o.payload, o.protected, None
         else:
             o = mod.deserialize_json(tok_v, vkey, algorithms=[alg])
